@@ -68,6 +68,15 @@ def rule_ops_forward(prop, repo, types=None):
     return R.finish()
 
 
+def limb_role(repo, d):
+    cache = getattr(repo, "_limb_roles", None)
+    if cache is None:
+        closed, _, _ = shared.classify_u256(repo)
+        cache = {p: i.get("role") for p, i in closed.items()}
+        repo._limb_roles = cache
+    return cache.get(d)
+
+
 def forward_ok(repo, b, v, op, nargs):
     v = strip(v)
     if v[0] != "call":
@@ -92,7 +101,7 @@ def inplace_ok(repo, b, v, op, nargs):
     # (1) newtype around a limb primitive: T(after[U256::op](&self.0, &other.0, …))
     if v[0] == "agg" and len(v[3]) == 1:
         inner = strip(v[3][0])
-        if inner[0] == "mutcall" and inner[1].name == op and inner[3] == 0:
+        if inner[0] == "mutcall" and inner[3] == 0 and (inner[1].name == op or limb_role(repo, inner[1].d) == op):
             a0 = peel_arg(inner[2][0])
             ok = a0 == (1, (0,))
             if nargs == 2:
@@ -395,37 +404,50 @@ def rule_guard_extra(prop, repo):
         R.fail_closed("%s:guard:divrem" % prop, "divrem not found")
     else:
         tb = repo.tb(b)
-        sub_blocks = [bb for bb, t in b.calls() if (t.get("fn") or {}).get("name") == "sub_with_borrow"]
+        # loop body = Some-edge of the bit iterator; evaluate it over (ordering of remainder vs modulus) x (carry) x (other tests)
+        from core.absexec import natural_loops
+        loops = natural_loops(b)
+        entry = None
+        for bi in sorted(b.reachable()):
+            t_ = b.blocks[bi]["term"]
+            if t_["k"] == "switch":
+                d = tb.operand(t_["discr"], bi, len(b.blocks[bi]["stmts"]))
+                if d[0] == "discr" and strip(d[1])[0] == "call" and strip(d[1])[1].name == "next":
+                    for val, tg in t_["arms"]:
+                        if int(val) == 1:
+                            entry = tg
         ok = False
-        why = ""
-        if len(sub_blocks) == 1:
-            sb = sub_blocks[0]
-            # the two guards in front of it: `&r >= modulo || carry`
-            conds = []
-            for bi in sorted(b.reachable()):
-                t = b.blocks[bi]["term"]
-                if t["k"] != "switch":
-                    continue
-                d = tb.operand(t["discr"], bi, len(b.blocks[bi]["stmts"]))
-                if d[0] == "call" and d[1].name in ("ge", "gt", "le", "lt") and len(d[2]) == 2:
-                    conds.append((bi, d[1].name, t))
-            ge = [c for c in conds if c[1] == "ge"]
-            # subtraction reachable from the true edge of `>=` directly and from the carry test
-            ok = len(ge) >= 2 and all(c[1] == "ge" for c in conds)
-            why = "comparisons: %s" % [(c[1]) for c in conds]
-            if ok:
-                c0 = ge[0]
-                t = c0[2]
-                true_t = t["otherwise"] if any(int(v) == 0 for v, _ in t["arms"]) else None
-                false_t = [tg for v, tg in t["arms"] if int(v) == 0]
-                ok = true_t is not None and sb in b.reach_from(true_t, avoid=[c0[0]]) and bool(false_t)
-                # on the false edge the subtraction happens only through the carry test
-                ft = false_t[0]
-                ftt = b.blocks[ft]["term"]
-                d2 = tb.operand(ftt["discr"], ft, len(b.blocks[ft]["stmts"])) if ftt["k"] == "switch" else None
-                ok = ok and d2 is not None and strip(d2)[0] in ("call", "field", "param") and not (strip(d2)[0] == "call" and strip(d2)[1].name in ("ge", "lt"))
-        R.check(ok, "%s:guard:divrem" % prop, "divrem: subtraction is not guarded by `remainder ≥ modulus ∨ carry` (%s)" % why, b.file_line(), b.rec["path"],
-                sample={"fn": b.rec["path"], "guards": why})
+        why = "loop over the dividend's bits not recognised"
+        rows = []
+        if entry is not None and loops:
+            nodes = set().union(*loops.values())
+            atoms = paths.collect_atoms(b, tb, blocks=sorted(nodes))
+            ords = [a for a in atoms if a[0] == "ord"]
+            carries = [a for a in atoms if a[0] == "bool" and a[1][0] in ("call", "mutcall") and getattr(a[1][1], "name", "") == "mul2"]
+            # the ordering test of the running remainder against the modulus parameter
+            def is_mod(x):
+                return strip(x) in (("param", 2), ("init", ("deref", 2)))
+            oa = [a for a in ords if is_mod(a[1]) or is_mod(a[2])]
+            if len(oa) == 1 and len(carries) == 1:
+                oa, ca = oa[0], carries[0]
+                flipped = is_mod(oa[1])
+                bad = []
+                for asg in paths.enumerate_assignments(atoms):
+                    res = paths.simulate(b, tb, paths.Evaluator(asg), start=entry)
+                    sub = bool(res.called(lambda f: f.name == "sub_with_borrow"))
+                    o = asg[oa]
+                    if flipped:
+                        o = {"L": "G", "G": "L", "E": "E"}[o]
+                    want = bool(asg[ca]) or o != "L"
+                    rows.append({"remainder_vs_modulus": o, "carry": asg[ca], "subtracts": sub})
+                    if sub != want:
+                        bad.append(rows[-1])
+                ok = not bad
+                why = "rows that differ: %s" % bad[:3]
+            else:
+                why = "expected one remainder/modulus comparison and one carry test in the loop, found %d / %d" % (len(oa), len(carries))
+        R.check(ok, "%s:guard:divrem" % prop, "divrem: subtract ⇔ carry ∨ remainder ≥ modulus does not hold (%s)" % why, b.file_line(), b.rec["path"],
+                sample={"fn": b.rec["path"], "rows": rows[:6], "row_count": len(rows)})
     d2 = F.bodies.get("crate::u256::U256::div2")
     R.instance()
     if d2 is None:
